@@ -612,8 +612,46 @@ func genC07Nested(g engine.G) *engine.Case {
 	return c
 }
 
+// genC07Side: shape 4, variant 1 -- the parameter n is made by a converter
+// with THREE inputs: a named option z, a named input x that has to be
+// converted itself (from the source type, by a single-input converter), and a
+// type-only input that a two-input converter (option z again + type-only
+// source) makes. Supplied: z, and source values named n and x (and others).
+// Whichever of its inputs the outer converter resolves first, the type-only
+// one is produced for the parameter n -- not for the sibling input x.
+func genC07Side(g engine.G) *engine.Case {
+	names := rapidPerm(g, []string{"a", "b", "cd", "ef"})
+	n, xn := names[0], names[1]
+	perm := rapidPerm(g, []int{0, 1, 2, 3, 4, 5})
+	tSrc, tKey, tMid, tSide, tDst := perm[0], perm[1], perm[2], perm[3], perm[4]
+	sc := &engine.Scenario{}
+	x := C07Case{Shape: 4, Variant: 1, FirstConv: 3, NameInput: 1}
+	sc.Inputs = []engine.Input{
+		{L: engine.Label{Name: n, Type: tSrc, Dyn: tSrc}, Tok: 1},
+		{L: engine.Label{Name: xn, Type: tSrc, Dyn: tSrc}, Tok: 2},
+		{L: engine.Label{Name: "q", Type: tKey, Dyn: tKey}, Tok: 9},
+	}
+	if g.Bool() {
+		sc.Inputs = append(sc.Inputs, engine.Input{L: engine.Label{Name: names[2], Type: tSrc, Dyn: tSrc}, Tok: 3})
+	}
+	sc.Inputs = rapidPerm(g, sc.Inputs)
+	sf := func() string { return engine.Pick(g, []string{engine.FormStruct, engine.FormPtr}) }
+	conv1 := engine.FuncSpec{ID: 1, In: rapidPerm(g, []engine.Label{{Name: "q", Type: tKey, Dyn: tKey}, {Name: xn, Type: tMid, Dyn: tMid}, {Type: tSide, Dyn: tSide}}), InForm: sf(),
+		Out: []engine.Label{{Type: tDst, Dyn: tDst}}, OutForm: engine.GenForm(g)}
+	convX := engine.FuncSpec{ID: 2, In: []engine.Label{{Type: tSrc, Dyn: tSrc}}, InForm: engine.GenForm(g), Out: []engine.Label{{Type: tMid, Dyn: tMid}}, OutForm: engine.GenForm(g)}
+	convSide := engine.FuncSpec{ID: 3, In: rapidPerm(g, []engine.Label{{Name: "q", Type: tKey, Dyn: tKey}, {Type: tSrc, Dyn: tSrc}}), InForm: sf(),
+		Out: []engine.Label{{Type: tSide, Dyn: tSide}}, OutForm: engine.GenForm(g)}
+	sc.Convs = rapidPerm(g, []engine.FuncSpec{conv1, convX, convSide})
+	sc.Target = engine.FuncSpec{ID: engine.TargetID, In: []engine.Label{{Name: n, Type: tDst, Dyn: tDst}}, InForm: sf(), OutForm: engine.FormPos}
+	c := &engine.Case{Sc: sc, Reps: 8}
+	c.SetX(&x)
+	return c
+}
+
 func genC07(g engine.G) *engine.Case {
 	switch k := g.Int(0, 99); {
+	case k < 4:
+		return genC07Side(g)
 	case k < 12:
 		return genC07Multi(g)
 	case k < 21:
